@@ -144,6 +144,9 @@ class SlotSet:
         if name != "issubset" or len(args) != 1 or not isinstance(args[0], SSet):
             raise Unsupported(f"set(getSlots()).{name}")
         skip = args[0]
+        want = I.ctx.ghost.get("subset_target")
+        if want is not None:
+            I.ctx.oblige("the-subset-test-is-against-the-set-the-contract-speaks-about", z3.BoolVal(skip is want))
         t = self.op.term
         # one-slot ops (every store / load): the set is {first}
         I.ctx.assume(z3.Implies(NSL(t) == 1, ALLSKIP(t) == skip.contains(FST(t))))
@@ -229,7 +232,7 @@ class ApplySlotToStack(Contract):
         # one-slot ops use exactly their first slot
         o, y = z3.Int("o1!"), z3.Int("y1!")
         ctx.assume(z3.ForAll([o, y], z3.Implies(NSL(o) == 1, USES(o, y) == (y == FST(o)))))
-        ctx.ghost.update(cur=cur, start=start, skip=skip, removed=None, blocks=blocks)
+        ctx.ghost.update(cur=cur, start=start, skip=skip, removed=None, blocks=blocks, subset_target=skip)
         return {"args": [cur, start, skip]}
 
     def is_other_load(self, ctx, x, p, b, i):
@@ -278,3 +281,99 @@ class ApplySlotToStack(Contract):
                    z3.ForAll([x], z3.Implies(removed.contains(x), z3.Exists([w], self.justified(ctx, x, w)))))
         ctx.oblige("removed-slots-are-stored-nowhere-else",
                    z3.ForAll([x], z3.Implies(removed.contains(x), NSTORES(x) == 1)))
+
+
+# ---- _remove_extraneous_slot_access -------------------------------------------------------------------------------------------------
+H = "_remove_extraneous_slot_access"
+
+
+class FilterResult:
+    """filter(pred, xs) where pred has been checked against the specified predicate on an arbitrary element"""
+
+    def __init__(self, base):
+        self.base = base
+
+
+class RemoveExtraneousSlotAccess(Contract):
+    """For every block of the routine the op list is replaced by list(filter(keep_op, block.ops)) of ITS OWN ops, where keep_op(op) is
+    False exactly for real TealOps that are `store` or `load` and whose slots all lie in `remove` (one-slot ops: whose slot is in
+    `remove`).  `filter` / `list` keep their Python meaning (order-preserving sub-list of the elements on which the predicate holds)."""
+    target = "pyteal.compiler.optimizer.optimizer._remove_extraneous_slot_access"
+
+    def __init__(self):
+        from pyteal.ir import TealBlock, TealOp, Op
+        from pyteal.ast import ScratchSlot
+        self.TealBlock, self.TealOp, self.Op, self.ScratchSlot = TealBlock, TealOp, Op, ScratchSlot
+        self.codes = {m: i for i, m in enumerate(Op)}
+        self.raises_only = ()
+        self.callees = {
+            TealBlock.__dict__["Iterate"].__func__: lambda I, args, kwargs: I.ctx.ghost["blocks"],
+            ("type", TealOp): lambda I, ref: (TealOp if I.ctx.branch(ISOP(ref.term)) else object),
+            TealOp.__dict__["getSlots"]: lambda I, args, kwargs: SlotList(args[0], ScratchSlot),
+            set: self.c_set,
+            filter: self.c_filter,
+            list: self.c_list,
+        }
+        self.fields = {(TealBlock, "ops"): self.f_ops, (TealOp, "op"): lambda ctx, ref: SRef(OPC(ref.term), Op)}
+        self.field_writes = {(TealBlock, "ops"): self.w_ops}
+        self.var_kinds = {}
+        self.loops = {(H, 0): LoopSpec(inv=self.inv)}
+
+    def f_ops(self, ctx, ref):
+        l = stamp(SList(REF(self.TealOp), arr=OPSARR(ref.term), length=OPSLEN(ref.term), name="ops"))
+        ctx.assume(OPSLEN(ref.term) >= 0)
+        return l
+
+    def c_set(self, I, args, kwargs):
+        if len(args) == 1 and isinstance(args[0], SlotList):
+            return SlotSet(args[0].op)
+        raise Unsupported("set() of something else")
+
+    def c_filter(self, I, args, kwargs):
+        pred, xs = args
+        g = I.ctx.ghost
+        if not isinstance(xs, SList):
+            raise Unsupported("filter over something that is not a block's op list")
+        # the predicate, on an arbitrary element: checked here once per path of the predicate
+        o = SRef(z3.Int(fresh_name("anyop")), self.TealOp)
+        res = I.call_closure(pred, [o], {}) if type(pred).__name__ == "Closure" else None
+        if res is None:
+            raise Unsupported("filter predicate is not the local keep_op")
+        t = o.term
+        drop = z3.And(ISOP(t), z3.Or(OPC(t) == self.codes[self.Op.store], OPC(t) == self.codes[self.Op.load]), ALLSKIP(t))
+        r = res if is_z3(res) else z3.BoolVal(bool(res))
+        I.ctx.oblige("keep_op-is-false-exactly-for-store-or-load-ops-whose-slots-are-all-to-be-removed", r == z3.Not(drop))
+        return FilterResult(xs)
+
+    def c_list(self, I, args, kwargs):
+        if len(args) == 1 and isinstance(args[0], FilterResult):
+            out = stamp(SList(REF(self.TealOp), name="kept"))
+            I.ctx.assume(out.length >= 0)
+            I.ctx.ghost["assigned_from"] = args[0].base
+            return out
+        raise Unsupported("list() of something else")
+
+    def w_ops(self, I, block, v):
+        """block.ops = v : v must be list(filter(keep_op, <the ops of this very block>))"""
+        src = I.ctx.ghost.get("assigned_from")
+        ok = isinstance(v, SList) and getattr(v, "name", "") == "kept" and src is not None
+        I.ctx.oblige("the-new-op-list-is-the-filtered-list", z3.BoolVal(bool(ok)))
+        if ok:
+            I.ctx.oblige("each-block-gets-the-filter-of-its-own-ops", src.arr == OPSARR(block.term))
+        I.ctx.ghost["written"] = I.ctx.ghost.get("written", 0) + 1
+
+    def setup(self, ctx, I):
+        I.engine.eq_handlers[self.Op] = lambda I_, x, y: (OPC_of(x) == self.codes[y]) if not isinstance(y, SRef) else (x.term == y.term)
+        blocks = stamp(SList(REF(self.TealBlock), name="reachable"))
+        ctx.assume(blocks.length >= 0)
+        start = SRef(z3.Int("start"), self.TealBlock)
+        remove = SSet(REF(self.ScratchSlot), name="remove")
+        ctx.ghost.update(blocks=blocks, remove=remove, assigned_from=None, subset_target=remove)
+        return {"args": [start, remove]}
+
+    def inv(self, ctx, env, it):
+        return [("position-in-range", it.k >= 0)]
+
+    def post(self, ctx, I, outcome, st):
+        if outcome[0] != "return":
+            ctx.oblige("never-raises", z3.BoolVal(False))
